@@ -121,6 +121,47 @@ theorem dropCR_of_trail (t : Text) (h : trailSpace t = none) : dropCR t = t := b
     simp at this
   · rfl
 
+/-! ## `strings.TrimRight(line, "\r\n")` leaves a line alone that does not end in a terminator -/
+
+/-- the last byte is not CR or LF -/
+def noEOLEnd (t : Text) : Bool :=
+  match t.reverse with
+  | c :: _ => c != '\r' && c != '\n'
+  | [] => true
+
+theorem trimEOL_id (t : Text) (h : noEOLEnd t = true) : trimEOL t = t := by
+  unfold trimEOL
+  unfold noEOLEnd at h
+  cases hr : t.reverse with
+  | nil => have : t = [] := by simpa using hr
+           subst this; rfl
+  | cons c r =>
+    rw [hr] at h
+    simp only [Bool.and_eq_true, bne_iff_ne, ne_eq] at h
+    have hp : (c == '\r' || c == '\n') = false := by simp [h.1, h.2]
+    simp only [List.dropWhile_cons, hp]
+    rw [← hr]; simp
+
+theorem dropCR_of_noEOL (t : Text) (h : noEOLEnd t = true) : dropCR t = t := by
+  unfold dropCR
+  unfold noEOLEnd at h
+  split
+  · next r heq => rw [heq] at h; simp at h
+  · rfl
+
+theorem noEOLEnd_of_lineSafe (t : Text) (h : lineSafe t = true) : noEOLEnd t = true := by
+  unfold noEOLEnd
+  split
+  · next c r heq =>
+    have hc : c ∈ t := by
+      have : c ∈ t.reverse := by rw [heq]; simp
+      simpa using this
+    unfold lineSafe at h
+    have := List.all_eq_true.mp h c hc
+    simp only [Bool.and_eq_true] at this
+    simp [this.1, this.2]
+  · rfl
+
 /-! ## fields -/
 
 /-- a passwd / group field: free of the field separator and of the line terminators -/
@@ -171,13 +212,16 @@ def userLine (u : User) : Text :=
 theorem renderUser_eq (u : User) : renderUser u = userLine u ++ ['\n'] := by
   simp [renderUser, userLine]
 
-/-- well-formed passwd entry: fields free of `:` / LF / CR, ids fit `uint32`, no white space at the
-start of the first or the end of the last field (F16f), the line fits the scanner buffer -/
+/-- well-formed passwd entry: fields free of `:` / LF / CR, ids fit `uint32`, the line fits the scanner
+buffer (white space anywhere in a field is allowed since the repair of F16f) -/
 def WFUser (u : User) : Bool :=
   fieldSafe u.name && fieldSafe u.password && fieldSafe u.info && fieldSafe u.home && fieldSafe u.shell &&
   decide (u.uid < 2 ^ 32) && decide (u.gid < 2 ^ 32) &&
-  (leadSpace u.name).isNone && (trailSpace u.shell).isNone &&
   decide ((userLine u).length < defaultTokenMax)
+
+/-- the padding clause the pinned reader needed (F16f): no white space at the start of the first or the
+end of the last field -/
+def unpaddedUser (u : User) : Bool := (leadSpace u.name).isNone && (trailSpace u.shell).isNone
 
 structure WFUserP (u : User) : Prop where
   name : fieldSafe u.name = true
@@ -187,15 +231,13 @@ structure WFUserP (u : User) : Prop where
   shell : fieldSafe u.shell = true
   uid : u.uid < 2 ^ 32
   gid : u.gid < 2 ^ 32
-  lead : leadSpace u.name = none
-  trail : trailSpace u.shell = none
   fit : (userLine u).length < defaultTokenMax
 
 theorem WFUser_spec (u : User) (h : WFUser u = true) : WFUserP u := by
   unfold WFUser at h
-  simp only [Bool.and_eq_true, decide_eq_true_eq, Option.isNone_iff_eq_none] at h
-  obtain ⟨⟨⟨⟨⟨⟨⟨⟨⟨a, b⟩, c⟩, d⟩, e⟩, f⟩, g⟩, i⟩, j⟩, k⟩ := h
-  exact ⟨a, b, c, d, e, f, g, i, j, k⟩
+  simp only [Bool.and_eq_true, decide_eq_true_eq] at h
+  obtain ⟨⟨⟨⟨⟨⟨⟨a, b⟩, c⟩, d⟩, e⟩, f⟩, g⟩, k⟩ := h
+  exact ⟨a, b, c, d, e, f, g, k⟩
 
 theorem userLine_lead (u : User) (h : leadSpace u.name = none) : leadSpace (userLine u) = none :=
   leadSpace_append_sep _ _ ':' (by decide) h
@@ -218,18 +260,29 @@ theorem userLine_split (u : User) (w : WFUserP u) :
     splitOnChar_append_sep _ _ _ (fieldSafe_spec _ w.home).1,
     splitOnChar_no_sep _ _ (fieldSafe_spec _ w.shell).1]
 
-theorem parseUser_userLine (u : User) (w : WFUserP u) : parseUser (userLine u) = some u := by
-  unfold parseUser
-  rw [trimSpace_id _ (userLine_lead u w.lead) (userLine_trail u w.trail), userLine_split u w]
+theorem userLine_lineSafe (u : User) (w : WFUserP u) : lineSafe (userLine u) = true := by
+  unfold userLine
+  simp [lineSafe_append, lineSafe_cons, (fieldSafe_spec _ w.name).2, (fieldSafe_spec _ w.password).2,
+    (fieldSafe_spec _ w.info).2, (fieldSafe_spec _ w.home).2, (fieldSafe_spec _ w.shell).2, natToDec_lineSafe]
+
+theorem parseUserWith_userLine (trim : Text → Text) (u : User) (w : WFUserP u)
+    (ht : trim (userLine u) = userLine u) : parseUserWith trim (userLine u) = some u := by
+  unfold parseUserWith
+  rw [ht, userLine_split u w]
   have h1 := w.uid
   have h2 := w.gid
   simp only [parseInt_natToDec u.uid (by omega), parseInt_natToDec u.gid (by omega),
     toU32_ofNat _ h1, toU32_ofNat _ h2]
 
-theorem userLine_lineSafe (u : User) (w : WFUserP u) : lineSafe (userLine u) = true := by
-  unfold userLine
-  simp [lineSafe_append, lineSafe_cons, (fieldSafe_spec _ w.name).2, (fieldSafe_spec _ w.password).2,
-    (fieldSafe_spec _ w.info).2, (fieldSafe_spec _ w.home).2, (fieldSafe_spec _ w.shell).2, natToDec_lineSafe]
+theorem parseUser_userLine (u : User) (w : WFUserP u) : parseUser (userLine u) = some u :=
+  parseUserWith_userLine trimEOL u w (trimEOL_id _ (noEOLEnd_of_lineSafe _ (userLine_lineSafe u w)))
+
+/-- the pinned reader gave an entry back when it was not padded -/
+theorem pinnedParseUser_userLine (u : User) (w : WFUserP u) (hp : unpaddedUser u = true) :
+    pinnedParseUser (userLine u) = some u := by
+  unfold unpaddedUser at hp
+  simp only [Bool.and_eq_true, Option.isNone_iff_eq_none] at hp
+  exact parseUserWith_userLine trimSpace u w (trimSpace_id _ (userLine_lead u hp.1) (userLine_trail u hp.2))
 
 /-! ## the loaders on written text (generic in the entry type) -/
 
@@ -275,8 +328,11 @@ written as an empty member field (`group_empty_member_ambiguous`). -/
 def WFGroup (g : Group) : Bool :=
   fieldSafe g.name && fieldSafe g.password && decide (g.gid < 2 ^ 32) &&
   decide (g.members ≠ [[]]) && g.members.all memberSafe &&
-  (leadSpace g.name).isNone && (trailSpace (joinWith [','] g.members)).isNone &&
   decide ((groupLine g).length < defaultTokenMax)
+
+/-- the padding clause the pinned reader needed (F16f) -/
+def unpaddedGroup (g : Group) : Bool :=
+  (leadSpace g.name).isNone && (trailSpace (joinWith [','] g.members)).isNone
 
 structure WFGroupP (g : Group) : Prop where
   name : fieldSafe g.name = true
@@ -284,15 +340,13 @@ structure WFGroupP (g : Group) : Prop where
   gid : g.gid < 2 ^ 32
   ne : g.members ≠ [[]]
   mem : ∀ m ∈ g.members, memberSafe m = true
-  lead : leadSpace g.name = none
-  trail : trailSpace (joinWith [','] g.members) = none
   fit : (groupLine g).length < defaultTokenMax
 
 theorem WFGroup_spec (g : Group) (h : WFGroup g = true) : WFGroupP g := by
   unfold WFGroup at h
-  simp only [Bool.and_eq_true, decide_eq_true_eq, Option.isNone_iff_eq_none, List.all_eq_true] at h
-  obtain ⟨⟨⟨⟨⟨⟨⟨a, b⟩, c⟩, d⟩, e⟩, f⟩, g'⟩, i⟩ := h
-  exact ⟨a, b, c, d, e, f, g', i⟩
+  simp only [Bool.and_eq_true, decide_eq_true_eq, List.all_eq_true] at h
+  obtain ⟨⟨⟨⟨⟨a, b⟩, c⟩, d⟩, e⟩, i⟩ := h
+  exact ⟨a, b, c, d, e, i⟩
 
 theorem memberSafe_spec (t : Text) (h : memberSafe t = true) : ',' ∉ t ∧ fieldSafe t = true := by
   unfold memberSafe at h
@@ -357,22 +411,33 @@ theorem joinWith_splitMembers (mem : Text) : joinWith [','] (splitMembers mem) =
   · next h => subst h; rfl
   · exact joinWith_splitOnChar ',' mem
 
-theorem parseGroup_groupLine (g : Group) (w : WFGroupP g) : parseGroup (groupLine g) = some g := by
-  have hl : leadSpace (groupLine g) = none := leadSpace_append_sep _ _ ':' (by decide) w.lead
-  have ht : trailSpace (groupLine g) = none := by
-    have e : groupLine g = (g.name ++ ':' :: (g.password ++ ':' :: natToDec g.gid)) ++ ':' :: joinWith [','] g.members := by
-      simp [groupLine]
-    rw [e]; exact trailSpace_sep_append _ _ ':' (by decide) w.trail
-  unfold parseGroup parseGroupWith
-  rw [trimSpace_id _ hl ht, groupLine_split g w]
-  have h1 := w.gid
-  simp only [parseInt_natToDec g.gid (by omega), toU32_ofNat _ h1,
-    splitMembers_joinWith g.members w.ne (fun a ha => (memberSafe_spec a (w.mem a ha)).1)]
-
 theorem groupLine_lineSafe (g : Group) (w : WFGroupP g) : lineSafe (groupLine g) = true := by
   unfold groupLine
   simp [lineSafe_append, lineSafe_cons, (fieldSafe_spec _ w.name).2, (fieldSafe_spec _ w.password).2,
     (fieldSafe_spec _ (members_fieldSafe _ w.mem)).2, natToDec_lineSafe]
+
+theorem parseGroupWith_groupLine (trim : Text → Text) (g : Group) (w : WFGroupP g)
+    (ht : trim (groupLine g) = groupLine g) : parseGroupWith trim splitMembers (groupLine g) = some g := by
+  unfold parseGroupWith
+  rw [ht, groupLine_split g w]
+  have h1 := w.gid
+  simp only [parseInt_natToDec g.gid (by omega), toU32_ofNat _ h1,
+    splitMembers_joinWith g.members w.ne (fun a ha => (memberSafe_spec a (w.mem a ha)).1)]
+
+theorem parseGroup_groupLine (g : Group) (w : WFGroupP g) : parseGroup (groupLine g) = some g :=
+  parseGroupWith_groupLine trimEOL g w (trimEOL_id _ (noEOLEnd_of_lineSafe _ (groupLine_lineSafe g w)))
+
+/-- the reader with the pinned trimming gave an entry back when it was not padded -/
+theorem pinnedTrimParseGroup_groupLine (g : Group) (w : WFGroupP g) (hp : unpaddedGroup g = true) :
+    pinnedTrimParseGroup (groupLine g) = some g := by
+  unfold unpaddedGroup at hp
+  simp only [Bool.and_eq_true, Option.isNone_iff_eq_none] at hp
+  have hl : leadSpace (groupLine g) = none := leadSpace_append_sep _ _ ':' (by decide) hp.1
+  have ht : trailSpace (groupLine g) = none := by
+    have e : groupLine g = (g.name ++ ':' :: (g.password ++ ':' :: natToDec g.gid)) ++ ':' :: joinWith [','] g.members := by
+      simp [groupLine]
+    rw [e]; exact trailSpace_sep_append _ _ ':' (by decide) hp.2
+  exact parseGroupWith_groupLine trimSpace g w (trimSpace_id _ hl ht)
 
 /-! ## the converse: canonical text is reproduced byte for byte -/
 
@@ -424,10 +489,9 @@ theorem canonNum_spec (t : Text) (h : canonNum t = true) : ∃ n, n < 2 ^ 32 ∧
     exact ⟨n, h.1, h.2⟩
   · exact absurd h (by simp)
 
-/-- line-level canonical form shared by passwd and group: not padded with white space, fits the
-scanner buffer -/
-def canonLine (l : Text) : Bool :=
-  (leadSpace l).isNone && (trailSpace l).isNone && decide (l.length < defaultTokenMax)
+/-- line-level canonical form shared by passwd and group: does not end in CR (LF cannot occur in a
+scanned line; white space is allowed everywhere since the repair of F16f), fits the scanner buffer -/
+def canonLine (l : Text) : Bool := noEOLEnd l && decide (l.length < defaultTokenMax)
 
 def canonUserLine (l : Text) : Bool :=
   canonLine l &&
@@ -445,9 +509,9 @@ def canonGroupLine (l : Text) : Bool :=
 def canonText (line : Text → Bool) (t : Text) : Bool := terminated t && (rawLines t).all line
 
 theorem canonLine_spec (l : Text) (h : canonLine l = true) :
-    leadSpace l = none ∧ trailSpace l = none ∧ l.length < defaultTokenMax := by
+    noEOLEnd l = true ∧ l.length < defaultTokenMax := by
   unfold canonLine at h
-  simpa [Bool.and_eq_true, and_assoc] using h
+  simpa [Bool.and_eq_true] using h
 
 theorem join7 (a b c d e f g : Text) :
     joinWith [':'] [a, b, c, d, e, f, g] = a ++ ':' :: (b ++ ':' :: (c ++ ':' :: (d ++ ':' :: (e ++ ':' :: (f ++ ':' :: g))))) := by
@@ -462,9 +526,9 @@ theorem renderUser_parseUser (l : Text) (u : User) (hc : canonUserLine l = true)
   unfold canonUserLine at hc
   simp only [Bool.and_eq_true] at hc
   obtain ⟨hcl, hnum⟩ := hc
-  obtain ⟨h1, h2, _⟩ := canonLine_spec l hcl
-  unfold parseUser at hp
-  rw [trimSpace_id l h1 h2] at hp
+  obtain ⟨h1, _⟩ := canonLine_spec l hcl
+  unfold parseUser parseUserWith at hp
+  rw [trimEOL_id l h1] at hp
   have hj := joinWith_splitOnChar ':' l
   split at hp
   · next n pw uid gid info home sh heq =>
@@ -483,9 +547,9 @@ theorem renderGroup_parseGroup (l : Text) (g : Group) (hc : canonGroupLine l = t
   unfold canonGroupLine at hc
   simp only [Bool.and_eq_true] at hc
   obtain ⟨hcl, hnum⟩ := hc
-  obtain ⟨h1, h2, _⟩ := canonLine_spec l hcl
+  obtain ⟨h1, _⟩ := canonLine_spec l hcl
   unfold parseGroup parseGroupWith at hp
-  rw [trimSpace_id l h1 h2] at hp
+  rw [trimEOL_id l h1] at hp
   have hj := joinWith_splitOnChar ':' l
   split at hp
   · next n pw gid mem heq =>
@@ -524,9 +588,9 @@ theorem write_loadWith {α : Type} (parse : Text → Option α) (render : α →
   simp only [Bool.and_eq_true, List.all_eq_true] at hc
   obtain ⟨hterm, hlines⟩ := hc
   have hfit : ∀ l ∈ rawLines t, decide (l.length < defaultTokenMax) = true := by
-    intro l hl; simpa using (canonLine_spec l (hline l (hlines l hl))).2.2
+    intro l hl; simpa using (canonLine_spec l (hline l (hlines l hl))).2
   have hcr : ∀ l ∈ rawLines t, dropCR l = l := by
-    intro l hl; exact dropCR_of_trail l (canonLine_spec l (hline l (hlines l hl))).2.1
+    intro l hl; exact dropCR_of_noEOL l (canonLine_spec l (hline l (hlines l hl))).1
   unfold loadWith scanLines at hl
   simp only [takeWhile_all _ _ hfit, map_id_of dropCR _ hcr] at hl
   split at hl
